@@ -652,8 +652,12 @@ def _check_from_float(ctx, n):
         # converting back returns the same float (default and exact mode)
         back = int(g.numerator) / int(g.denominator) if g != 0 else 0.0
         t = TimeType.from_float(f) if mode == 'default' else TimeType.from_float(f, 0)
-        if float(t) != f:
-            ctx.violation('float(TimeType.from_float(%r, mode=%s)) = %r' % (f, mode, float(t)),
+        try:
+            back_float = float(t)
+        except Exception as exc:  # noqa: converting back must not raise for a finite float
+            back_float = 'raises %s' % type(exc).__name__
+        if back_float != f:
+            ctx.violation('float(TimeType.from_float(%r, mode=%s)) = %r' % (f, mode, back_float),
                           {'kind': 'from_float_back', 'value': repr(f), 'mode': mode})
     # tolerance mode through the float entry point: judged with the exact float values
     _check_from_float_tol(ctx, _from_float_tol_cases(rng, n // 2))
